@@ -20,15 +20,23 @@ CACHE = os.environ.get('VERIF_KANI_CACHE', '/var/tmp/zkverif-cache')
 
 
 def sh(cmd, cwd=None, env=None, timeout=None):
+    # own process group: on timeout the whole tree (cargo-kani -> cbmc) is killed, no orphan solver keeps running
+    import signal
     t0 = time.time()
+    p = subprocess.Popen(cmd, cwd=cwd, env=env, stdout=subprocess.PIPE, stderr=subprocess.STDOUT, text=True, start_new_session=True)
     try:
-        p = subprocess.run(cmd, cwd=cwd, env=env, capture_output=True, text=True, timeout=timeout)
-        return p.returncode, p.stdout + p.stderr, time.time() - t0, False
-    except subprocess.TimeoutExpired as e:
-        out = (e.stdout or b'')
-        if isinstance(out, bytes):
-            out = out.decode('utf-8', 'replace')
-        return -1, out, time.time() - t0, True
+        out, _ = p.communicate(timeout=timeout)
+        return p.returncode, out, time.time() - t0, False
+    except subprocess.TimeoutExpired:
+        try:
+            os.killpg(p.pid, signal.SIGKILL)
+        except ProcessLookupError:
+            pass
+        try:
+            out, _ = p.communicate(timeout=30)
+        except Exception:
+            out = ''
+        return -1, out or '', time.time() - t0, True
 
 
 def build_workspace(repo, wd, cfg):
@@ -70,6 +78,17 @@ def build_workspace(repo, wd, cfg):
         rc, out, _, _ = sh(cmd, cwd=VERIF, timeout=600)
         if rc != 0:
             return None, 'lost anchor: pregen %s failed: %s' % (' '.join(cmd), out[-800:]), []
+    # optional "source_subst": [{"file", "from", "to", "why"}]: DECLARED one-line substitutions in the scratch copy of a real
+    # source file (e.g. `use std::collections::HashMap;` -> an association-list stand-in CBMC can run).  `from` must occur
+    # exactly once, otherwise lost anchor (undecided).  Each is listed in the evidence as a substitution / assumption.
+    for sub in cfg.get('source_subst', []):
+        dst = os.path.join(ws, sub['file'])
+        if not os.path.exists(dst):
+            return None, 'lost anchor: %s not found' % sub['file'], []
+        txt = open(dst).read()
+        if txt.count(sub['from']) != 1:
+            return None, 'lost anchor: source_subst text %r occurs %d times in %s' % (sub['from'], txt.count(sub['from']), sub['file']), []
+        open(dst, 'w').write(txt.replace(sub['from'], sub['to']))
     appended = []
     for ap in cfg.get('append', []):
         dst = os.path.join(ws, ap['file'])
@@ -100,7 +119,17 @@ def parse_harness_output(out):
     return verdict, checks
 
 
+import threading
+# at most VERIF_KANI_PROCS cargo-kani / CBMC processes at once across all units of one ./check (CPU and memory guard)
+HARNESS_SEM = threading.BoundedSemaphore(int(os.environ.get('VERIF_KANI_PROCS', '10')))
+
+
 def run_harness(ws, cfg, h, target_dir, tier):
+    with HARNESS_SEM:
+        return run_harness_(ws, cfg, h, target_dir, tier)
+
+
+def run_harness_(ws, cfg, h, target_dir, tier):
     env = dict(os.environ)
     env['CARGO_NET_OFFLINE'] = 'true'
     env['CARGO_TARGET_DIR'] = target_dir
@@ -146,11 +175,11 @@ def run_unit(repo, unit, cfg, wd, tier='quick', prop=None):
         res['wall_s'] = time.time() - t0
         return res
     os.makedirs(CACHE, exist_ok=True)
-    target_dir = os.path.join(CACHE, 'kani-target-' + cfg.get('cache_key', cfg['package']))
+    target_dir = os.path.join(CACHE, 'kani-target-' + cfg.get('cache_key', unit))
     # first harness alone (builds dependencies), the rest in parallel
     results = [run_harness(ws, cfg, hs[0], target_dir, tier)]
     if len(hs) > 1:
-        with ThreadPoolExecutor(int(os.environ.get('VERIF_KANI_JOBS', '6'))) as ex:
+        with ThreadPoolExecutor(int(os.environ.get('VERIF_KANI_JOBS', '8'))) as ex:
             results += list(ex.map(lambda h: run_harness(ws, cfg, h, target_dir, tier), hs[1:]))
     import hashlib
     for ap in cfg.get('append', []) + cfg.get('extracted', []):  # 'extracted': items a pregen hook copies verbatim
@@ -158,7 +187,8 @@ def run_unit(repo, unit, cfg, wd, tier='quick', prop=None):
         for fn in ap.get('functions', []):
             res['functions'].append({'unit': unit, 'file': ap['file'], 'item': fn, 'sha256': hashlib.sha256(src.encode()).hexdigest(),
                                      'tags': sorted({t for h in cfg['harnesses'] for t in h['tags']}), 'external_body': False,
-                                     'substitutions': [], 'kind': ap.get('kind', 'kani-real-crate')})
+                                     'substitutions': ['%s => %s' % (x['from'], x['to']) for x in cfg.get('source_subst', []) if x['file'] == ap['file']],
+                                     'kind': ap.get('kind', 'kani-real-crate')})
     res['assumptions'] = list(cfg.get('assumptions', [])) + [
         'color-eyre replaced by a message-free shim (kani/shims/color-eyre): error *values* are not inspected',
         'Kani/CBMC: termination not proved; unwinding assertions on']
@@ -196,7 +226,9 @@ def run_unit(repo, unit, cfg, wd, tier='quick', prop=None):
                 if cex is None and h.get('playback', True):
                     cex = concrete_playback(ws, cfg, h, target_dir) or ''
                 n_fail_checks = len([x for x in (user_failed + panics) if ((x['description'].split('/', 1) == [fn, clause]) if x in user_failed else (clause == h.get('panic_clause', 'no-panic')))])
-                res['failed'].append({'obligation': ob, 'unit': unit, 'fn': fn, 'clause': clause, 'tags': h['tags'], 'n_failed_checks': max(1, n_fail_checks),
+                res['failed'].append({'obligation': ob, 'unit': unit, 'fn': fn, 'clause': clause,
+                                      # "clause_tags": {"<fn>/<clause>": [..]} narrows the properties one clause of a harness carries
+                                      'tags': h.get('clause_tags', {}).get('%s/%s' % (fn, clause), cfg.get('clause_tags', {}).get('%s/%s' % (fn, clause), h['tags'])), 'n_failed_checks': max(1, n_fail_checks),
                                       'message': 'Kani: %s (%s) in harness %s' % (c['description'], c['location'], h['name']),
                                       'rendered': '\n'.join('%s: %s [%s] %s' % (x['id'], x['status'], x['description'], x['location'])
                                                             for x in r['checks'] if x['status'] != 'SUCCESS')[:4000],
